@@ -46,9 +46,9 @@ pub enum ConfigAny {
 
 pub struct Config;
 
-const KINDS: [Kind; 7] = [Kind::Gr, Kind::Co, Kind::Pr, Kind::St, Kind::Sst, Kind::Stg, Kind::Id];
+pub const KINDS: [Kind; 7] = [Kind::Gr, Kind::Co, Kind::Pr, Kind::St, Kind::Sst, Kind::Stg, Kind::Id];
 
-fn sem_of(kind: Kind) -> Sem {
+pub fn sem_of(kind: Kind) -> Sem {
     match kind {
         Kind::Gr => Sem::GR,
         Kind::Co => Sem::CO,
@@ -60,7 +60,7 @@ fn sem_of(kind: Kind) -> Sem {
     }
 }
 
-fn encs_of(kind: Kind) -> Vec<Enc> {
+pub fn encs_of(kind: Kind) -> Vec<Enc> {
     match kind {
         Kind::Gr => vec![Enc::NoEnc],
         Kind::St => vec![Enc::Stable],
@@ -70,7 +70,7 @@ fn encs_of(kind: Kind) -> Vec<Enc> {
     }
 }
 
-fn queries_of(kind: Kind, enc: Enc) -> Vec<Q> {
+pub fn queries_of(kind: Kind, enc: Enc) -> Vec<Q> {
     match kind {
         Kind::Co => vec![Q::DC],
         // the admissibility encoder is only selectable for SE-PR
@@ -258,7 +258,7 @@ impl Prop for Config {
 }
 
 impl Config {
-    fn small_strategy(&self, tier: Tier) -> BoxedStrategy<ConfigCase> {
+    pub fn small_strategy(&self, tier: Tier) -> BoxedStrategy<ConfigCase> {
         let nmax = 8;
         let maxlen = tier.pick(12usize, 30usize);
         (
